@@ -1147,6 +1147,11 @@ class Lowerer:
         try:
             return self.stmt(c, d)
         except Unsupported as ex:
+            if c.get('kind') == 'ReturnStmt' and not (f.rett.kind == 'b' and f.rett.name == 'void'):
+                del f.tmps[save[0]:]
+                self.note('SKELETON: return value at %s could not be lowered (%s): an arbitrary value is returned' % (where(c), str(ex)[:120]))
+                rt = Ty('ptr', to=f.rett.to) if f.rett.kind == 'ref' else f.rett
+                return self.ind(d) + '{ SKELETON_RETURN(%s); %s; return __skel_ret; }\n' % (f.cname, self.cdecl(rt, '__skel_ret'))
             if c.get('kind') in ('ReturnStmt', 'BreakStmt', 'ContinueStmt'):
                 raise
             del f.tmps[save[0]:]
